@@ -1022,15 +1022,29 @@ impl Element {
                             }),
                             Value::Dynamic { expression, .. } => {
                                 let p = expression.to_proc_gen_prepare(w, scopes)?;
+                                // data given by one expression (not the object-literal form) may be missing,
+                                // and its update path tree is undefined when nothing under it changed
+                                let is_obj = matches!(
+                                    **expression,
+                                    crate::parse::expr::Expression::LitObj { .. }
+                                );
                                 w.expr_stmt(|w| {
                                     write!(
                                         w,
                                         "if({}&&{}){}(R,C,",
                                         var_key, var_target, var_target
                                     )?;
-                                    p.value_expr(w)?;
-                                    write!(w, ",K||(U?")?;
-                                    p.lvalue_state_expr(w, scopes, true)?;
+                                    if is_obj {
+                                        p.value_expr(w)?;
+                                        write!(w, ",K||(U?")?;
+                                        p.lvalue_state_expr(w, scopes, true)?;
+                                    } else {
+                                        write!(w, "X(")?;
+                                        p.value_expr(w)?;
+                                        write!(w, "),K||(U?X(")?;
+                                        p.lvalue_state_expr(w, scopes, true)?;
+                                        write!(w, ")")?;
+                                    }
                                     write!(w, ":Object.create(null))).C(C,T,E,B,F,S,J)")?;
                                     Ok(())
                                 })
